@@ -1,7 +1,7 @@
 //! C11 — magnitude, distance, normalisation, angle, projection (DESIGN §C11).
 
 use cgmath::prelude::*;
-use cgmath::{Point1, Point2, Point3, Quaternion, Vector1, Vector2, Vector3, Vector4};
+use cgmath::{Point1, Point2, Point3, Quaternion, Vector1, Vector3, Vector4};
 use num_traits::Float;
 
 use cgv_core::clause;
